@@ -45,6 +45,10 @@ structure A3Inv (n : Node) : Prop where
         ¬ ((n.signed[i]'(by omega)).height = (n.signed[j]).height ∧
            (n.signed[i]'(by omega)).round = (n.signed[j]).round ∧
            (n.signed[i]'(by omega)).type = (n.signed[j]).type)
+  /-- the signing history is in the order of (height, round) -/
+  srt : ∀ (i j : Nat) (_ : i < j) (hj : j < n.signed.length),
+        (n.signed[i]'(by omega)).height ≤ (n.signed[j]).height ∧
+        ((n.signed[i]'(by omega)).height = (n.signed[j]).height → (n.signed[i]'(by omega)).round ≤ (n.signed[j]).round)
 
 theorem ReleasedBy.mono {n n' : Node} {p : VoteSet.Vote} {u u' : Int} (x : ReleasedBy n p u)
     (hu : u ≤ u') (hs : ∀ r b, maj23 (prevotes n r) = some b → maj23 (prevotes n' r) = some b) :
@@ -70,7 +74,7 @@ theorem A3Inv.keep {n n' : Node} (i : A3Inv n) (e : Ext n n') (k : Kept n n') (l
     (hs : n'.signed = n.signed) : A3Inv n' := by
   have hround := l.round_le k.h
   have stab := e.stable k.h
-  refine ⟨?_, ?_, ?_, ?_, ?_, ?_, ?_⟩
+  refine ⟨?_, ?_, ?_, ?_, ?_, ?_, ?_, ?_⟩
   · intro v hv
     rw [hs] at hv
     obtain ⟨a, b⟩ := i.hr v hv
@@ -116,11 +120,17 @@ theorem A3Inv.keep {n n' : Node} (i : A3Inv n) (e : Ext n n') (k : Kept n n') (l
     have e2 : n'.signed[b] = n.signed[b] := by simp [hs]
     rw [e1, e2]
     exact i.uniq a b hab hb'
+  · intro a b hab hb
+    have hb' : b < n.signed.length := by rw [← hs]; exact hb
+    have e1 : n'.signed[a]'(by omega) = n.signed[a]'(by omega) := by simp [hs]
+    have e2 : n'.signed[b] = n.signed[b] := by simp [hs]
+    rw [e1, e2]
+    exact i.srt a b hab hb'
 
 /-- the height moved on: nothing of the old height is the subject any more -/
 theorem A3Inv.next {n n' : Node} (i : A3Inv n) (hh : n.height < n'.height) (hs : n'.signed = n.signed)
     (hl : n'.lockedBlock = none) : A3Inv n' := by
-  refine ⟨?_, ?_, ?_, ?_, ?_, ?_, ?_⟩
+  refine ⟨?_, ?_, ?_, ?_, ?_, ?_, ?_, ?_⟩
   · intro v hv
     rw [hs] at hv
     have := (i.hr v hv).1
@@ -152,6 +162,12 @@ theorem A3Inv.next {n n' : Node} (i : A3Inv n) (hh : n.height < n'.height) (hs :
     have e2 : n'.signed[b] = n.signed[b] := by simp [hs]
     rw [e1, e2]
     exact i.uniq a b hab hb'
+  · intro a b hab hb
+    have hb' : b < n.signed.length := by rw [← hs]; exact hb
+    have e1 : n'.signed[a]'(by omega) = n.signed[a]'(by omega) := by simp [hs]
+    have e2 : n'.signed[b] = n.signed[b] := by simp [hs]
+    rw [e1, e2]
+    exact i.srt a b hab hb'
 
 /-! ### who signs -/
 
@@ -236,7 +252,7 @@ theorem A3Inv.step {n n' : Node} (i : A3Inv n) (extra : List VoteSet.Vote) (hlen
     (hfresh : ∀ v ∈ extra, ∀ p ∈ n.signed, ¬ (p.height = v.height ∧ p.round = v.round ∧ p.type = v.type)) :
     A3Inv n' := by
   have pcEq : ∀ p, IsPC n' p ↔ IsPC n p := fun p => by unfold IsPC; rw [hh]
-  refine ⟨?_, ?_, ?_, ?_, ?_, ?_, ?_⟩
+  refine ⟨?_, ?_, ?_, ?_, ?_, ?_, ?_, ?_⟩
   · intro v hv
     rw [hs] at hv
     rw [hh, hround]
@@ -311,6 +327,33 @@ theorem A3Inv.step {n n' : Node} (i : A3Inv n) (extra : List VoteSet.Vote) (hlen
         simp
       rw [e1, e2]
       exact hfresh v (by rw [hv]; simp) _ (List.getElem_mem _)
+  · intro a b hab hb
+    have hlen' : n'.signed.length = n.signed.length + extra.length := by rw [hs]; simp
+    by_cases hbl : b < n.signed.length
+    · have e1 : n'.signed[a]'(by omega) = n.signed[a]'(by omega) := by
+        simp only [hs]; exact List.getElem_append_left (by omega)
+      have e2 : n'.signed[b] = n.signed[b] := by
+        simp only [hs]; exact List.getElem_append_left hbl
+      rw [e1, e2]
+      exact i.srt a b hab hbl
+    · have hb' : b = n.signed.length := by omega
+      have hext : extra.length = 1 := by omega
+      obtain ⟨v, hv⟩ : ∃ v, extra = [v] := by
+        cases extra with
+        | nil => simp at hext
+        | cons x r => cases r with
+          | nil => exact ⟨x, rfl⟩
+          | cons y z => simp at hext
+      have e1 : n'.signed[a]'(by omega) = n.signed[a]'(by omega) := by
+        simp only [hs]; exact List.getElem_append_left (by omega)
+      have e2 : n'.signed[b] = v := by
+        simp only [hs, hv, hb']
+        simp
+      rw [e1, e2]
+      obtain ⟨x1, x2⟩ := hex v (by rw [hv]; simp)
+      have := i.hr _ (List.getElem_mem (l := n.signed) (by omega : a < n.signed.length))
+      rw [x1, x2]
+      exact this
 
 theorem bidOf_hash (b : Name) : (bidOf b).hash = b := by
   unfold bidOf
@@ -897,13 +940,14 @@ theorem a3_run (ins : List In) : ∀ n : Node, A3Inv n → RunOK n ins → A3Inv
 
 theorem init_a3 (cfg : Cfg) (height : Int) (vals : ValSet.ValSet) (me : Option Nat) (skip : Bool) :
     A3Inv (init cfg height vals me skip) := by
-  refine ⟨?_, ?_, ?_, ?_, ?_, ?_, ?_⟩
+  refine ⟨?_, ?_, ?_, ?_, ?_, ?_, ?_, ?_⟩
   · intro v hv; simp [init] at hv
   · intro p hp; simp [init] at hp
   · intro hl; simp [init] at hl
   · intro p hp; simp [init] at hp
   · intro a b _ hb; simp [init] at hb
   · intro p hp; simp [init] at hp
+  · intro a b _ hb; simp [init] at hb
   · intro a b _ hb; simp [init] at hb
 
 end AnnVerif.Node
